@@ -298,7 +298,7 @@ def run_shard(mod, tier, seed, shard, nshards, only_sub=None):
                 break
             case, v = state['fail']
             confirmed = True
-            if sub.deterministic:
+            if sub.deterministic or v.kind == 'hang':      # a wall-clock timeout is always re-tried: a loaded machine is not evidence
                 confirmed = False
                 for _ in range(3):   # a failure that depends on process scheduling may need more than one attempt
                     try:
@@ -310,6 +310,9 @@ def run_shard(mod, tier, seed, shard, nshards, only_sub=None):
             path = write_replay(mod, sub, case, v, seed, tier, f's{shard}a{attempt}')
             if confirmed:
                 st.violations.append(dict(sub=sub.name, kind=v.kind, detail=v.detail[:1000], replay=os.path.relpath(path, ROOT), signature=v.signature))
+            elif v.kind == 'hang':
+                # the wall-clock limit was hit once and not again: a slow machine, not a property of the code (inconclusive, counted)
+                st.labels[f'{sub.name}:inconclusive-timeout-not-reproduced'] = st.labels.get(f'{sub.name}:inconclusive-timeout-not-reproduced', 0) + 1
             else:
                 st.harness_errors.append(dict(sub=sub.name, where='non-reproducible failure', tb=v.detail[:2000], replay=os.path.relpath(path, ROOT)))
             ignored.add(v.signature)
